@@ -287,11 +287,12 @@ def consume(model, use):
     return True
 
 
-CONSUMER_SECONDS = 20     # an ordinary consumer takes milliseconds to a few seconds
+CONSUMER_SECONDS = 10     # an ordinary consumer takes milliseconds to a few seconds
 
 
-class _ConsumerTimeout(Exception):
-    pass
+class _ConsumerTimeout(BaseException):
+    """not an Exception: the library's own broad `except Exception` clauses (the grid constructors retry their root search inside
+    `while True: try ... except`) must not swallow it"""
 
 
 class _ConsumerTimeLimit:
@@ -308,6 +309,7 @@ class _ConsumerTimeLimit:
         self.usable = hasattr(signal, "SIGALRM")
         if self.usable:
             def fire(signum, frame):
+                signal.alarm(2)           # keep firing until it gets out of whatever swallows it
                 raise _ConsumerTimeout()
             self.remaining = signal.alarm(0)
             self.old = signal.signal(signal.SIGALRM, fire)
